@@ -92,10 +92,10 @@ def _configs(tier, salts):
                         plan = {"depth": depth, "letters": LETTERS if depth < 2 else ["best", "tie", "x3", "nan"]}
                         out.append((cfg, plan))
         # geometries whose trust-region step can increase the model, every single deviation with 'best' / 'x0.3'
-        if salt == 0 or tier == "thorough":
+        if salt == 0 or (tier == "thorough" and salt == 1):
             out += cfgs.tr_increase_cfgs(salt, restarts=("none", "hard_new", "soft"))
         # the broad option bank (every documented parameter at a non-default value somewhere)
-        if salt == 0 or tier == "thorough":
+        if salt == 0 or (tier == "thorough" and salt == 1):
             for name, cfg in cfgs.broad_cfgs(salt=salt, budgets=(7, 25, 60) if tier == "quick" else (4, 7, 13, 25, 40, 60, 120),
                                              overlays=("avg", "soft")):
                 depth = 1 if (tier == "thorough" and cfg.get("memo", True) and "reg" not in cfg["broad_flags"] and cfg["maxfun"] in (13, 25)) else 0
